@@ -19,7 +19,7 @@ pub struct History {
 fn gen_history(rng: &mut Rng, id: usize, max_n: usize) -> History {
     let w32 = rng.below(2) == 0;
     let len = rng.range(2, 12);
-    let mut calls = vec![];
+    let mut calls: Vec<Case> = vec![];
     for _ in 0..len {
         let alg = *rng.pick(&ALGS);
         let mut method = *rng.pick(&METHODS);
@@ -27,14 +27,26 @@ fn gen_history(rng: &mut Rng, id: usize, max_n: usize) -> History {
             method = *rng.pick(&METHODS);
         }
         let kind = rng.below(100);
-        let n = match rng.below(10) {
+        let mut n = match rng.below(10) {
             0 => 0,
             1 => 1,
             2 => 2,
             _ => rng.range(3, max_n),
         };
+        let mut class = *rng.pick(&gen::CLASSES);
+        // same-size reuse is its own regime (buffers of exactly the right length, nothing resized): one call
+        // in three repeats the size of the previous call; right after a call that PANICKED half-way (NaN
+        // reaching the sort) usually so, and then on a tie-saturated input, where any leftover order shows
+        if let Some(prev) = calls.last() {
+            let after_nan = prev.class == "nan";
+            if (after_nan && rng.below(10) < 7) || rng.below(3) == 0 {
+                n = prev.n;
+                if after_nan || rng.below(2) == 0 {
+                    class = *rng.pick(&["lattice", "twovalued", "allequal", "duppoints"]);
+                }
+            }
+        }
         let n = if alg == Alg::Primitive { n.min(30) } else { n };
-        let class = *rng.pick(&gen::CLASSES);
         let vals = gen::matrix(rng, class, n);
         let mut bits = gen::to_bits(class, w32, &vals);
         let mut cls = class;
